@@ -195,6 +195,7 @@ func genC01(g *Gen) {
 	for i := 0; i < g.scale(800, 20000); i++ {
 		k := g.key()
 		f := g.genJoinFrame("JA", i%5 != 0)
+		g.add("jart " + f)
 		g.add("encja " + k + " " + f)
 		res := execOp("encja " + k + " " + f)
 		if strings.HasPrefix(res, "ok ") {
